@@ -1,5 +1,6 @@
 (* Extraction of the executable model to OCaml.  ExtrOcamlBasic only: no
    Extract Constant / Extract Inductive directive of our own. *)
+From GS.Spec Require Import ShareSpec.
 From GS.Model Require Import Base Varint Namespace ShareFmt Blob Sparse Compact Counter Arith Proto Builder Square.
 Require Import Extraction.
 Require Import ExtrOcamlBasic.
@@ -40,4 +41,5 @@ Extraction "model.ml"
   construct build find_blob_starting_index blob_share_length find_tx_share_range get_wrapped_pfb
   tx_share_range blob_share_range new_builder_txs
   get_share_range_for_namespace parse_shares sequence_raw_data valid_sequence_len number_of_shares_needed
+  blob_spec sparse_spec padding_spec compact_spec
   deconstruct wrapped_pfbs mock_pfb_decoder square_is_empty empty_square.
